@@ -7,16 +7,22 @@
 
   The models are total Lean functions in which every `unwrap` / `expect` / `unreachable!` / index of the code is an
   explicit outcome `panic site`, and unbounded loops carry fuel with the outcome `outOfFuel`.
-  PROVED for every text: loading never ends in `panic` (C05_loader_never_panics) under tree-sitter's contract that an
-  accepted query text ending in `@__tsg__full_match` has that capture; the two halves are stated separately.
+  PROVED for every text: loading TERMINATES (the parser never runs out of the fuel `Parser.parse` supplies —
+  every loop iteration and every chain of at most four calls consumes a character — and the checker is structurally
+  recursive) and never ends in `panic` (C05_loader_total), under tree-sitter's contract that `Query::new` returns and
+  that an accepted query text ending in `@__tsg__full_match` has that capture. The contract is not vacuous and not
+  redundant: tree-sitter 0.24.7's Rust binding does break its first half (it panics while building the error for a
+  query whose error is at offset 0, e.g. `nosuchfield: (identifier) @x { }`); the model has that outcome
+  (`QueryAns.bindingPanic`) and the harness records it as a known finding.
   PROVED for the scan loops: every iteration consumes at least one byte or fails (imported from C10).
-  NOT a theorem (partial): that `outOfFuel` is unreachable with the fuel the driver supplies, and that the
-  interpreter models never end in `panic` (their remaining sites — graph and tree indices, frames, the capture
-  quantifier contract — need whole-interpreter invariants). Both are observed by the correspondence check instead:
-  a model outcome `panic` or `out-of-fuel` on any generated case is reported. What no model can exhibit — stack
+  NOT a theorem (partial): that the interpreter models never end in `panic` or run out of their fuel (their
+  remaining sites — graph and tree indices, frames, the capture quantifier contract — need whole-interpreter
+  invariants). This is observed by the correspondence check instead: a model outcome `panic` or `out-of-fuel` on any
+  generated case is reported. What no model can exhibit — stack
   exhaustion and aborts of the real process, wall-clock hangs — is decided by the watchdog harness on the real code.
 -/
 import Tsg.Proofs.ParserPost
+import Tsg.Proofs.ParserFuel
 import Tsg.Proofs.CheckerSafe
 import Tsg.Syntax.Load
 import Tsg.Props.C10
@@ -69,13 +75,55 @@ theorem C05_loader_never_panics (o : POracle) (nullable : String → Option Bool
       | needNullable p => simp
       | panic s => exact absurd hk (check_never_panics nullable f hfm s)
 
+/-- **Parsing terminates**: with the fuel `Parser.parse` gives its loops (|text| + 2 for the character loops,
+8·(|text| + 2) for the recursive-descent functions and the file loop), the fuel never runs out — for every text
+and every behaviour of the outside world. -/
+theorem C05_parser_terminates (o : POracle) (text : String) : Parser.parse o text ≠ .error .outOfFuel :=
+  parse_never_out_of_fuel o text
+
+/-- **Loading is total.** `File::from_str` on any text ends in one of: a file, a parse error, a check error — or
+asks the harness for an outside answer it has not been given yet. It neither panics nor fails to terminate. -/
+theorem C05_loader_total (o : POracle) (nullable : String → Option Bool) (text : String) (hc : QueryContract o) :
+    (∃ f, Loader.load o nullable text = .loaded f) ∨ (∃ e, Loader.load o nullable text = .parseError e) ∨
+    (∃ e, Loader.load o nullable text = .checkError e) ∨ (∃ q, Loader.load o nullable text = .needQuery q) ∨
+    (∃ p, Loader.load o nullable text = .needRegex p) ∨ (∃ p, Loader.load o nullable text = .needNullable p) := by
+  have hp := C05_loader_never_panics o nullable text hc
+  have hf := parse_never_out_of_fuel o text
+  unfold Loader.load at hp ⊢
+  cases hpr : Parser.parse o text with
+  | error e =>
+    cases e with
+    | err e => simp
+    | need q => cases q <;> simp
+    | outOfFuel => exact absurd hpr hf
+    | panic s => simp only [hpr] at hp; exact absurd rfl (hp s)
+  | ok f =>
+    simp only [hpr] at hp ⊢
+    cases hk : Checker.check nullable f with
+    | ok f' => simp
+    | error e =>
+      cases e with
+      | err e => simp
+      | needNullable p => simp
+      | panic s => simp only [hk] at hp; exact absurd rfl (hp s)
+
 /-- non-vacuity of the contract: an oracle that answers every query with a table containing the capture -/
 example : QueryContract { query := fun _ => some (.valid 1 [("x", .one), (fullMatchName, .one)]),
                           regexValid := fun _ => some true, charClass := fun _ => (false, false, false), fuel := 0 } := by
-  intro q p caps h
-  simp only [Option.some.injEq, QueryAns.valid.injEq] at h
-  obtain ⟨_, rfl⟩ := h
-  simp [List.findIdx?, List.findIdx?.go, fullMatchName]
+  refine ⟨?_, ?_⟩
+  · intro q p caps h
+    simp only [Option.some.injEq, QueryAns.valid.injEq] at h
+    obtain ⟨_, rfl⟩ := h
+    simp [List.findIdx?, List.findIdx?.go, fullMatchName]
+  · intro q h
+    simp at h
+
+/-- an oracle that behaves like the binding of tree-sitter 0.24.7 on a query whose error is at offset 0 -/
+def panickingOracle : POracle :=
+  { query := fun _ => some .bindingPanic, regexValid := fun _ => some true, charClass := fun _ => (false, false, false), fuel := 0 }
+
+/-- … makes loading end in `panic`: this is the known finding (the implementation panics on `nosuchfield: (x) { }`) -/
+example : (match Loader.load panickingOracle (fun _ => some false) "f:(m){}" with | .panic _ => true | _ => false) = true := by rfl
 
 /-- an oracle that breaks the contract -/
 def badOracle : POracle :=
